@@ -28,3 +28,32 @@ Example C10_visitor_old_refuted :
   view 1 s = [[1]; [2]; [3]] /\
   concat (visitor bytes_cmp true s 1 0 pivots) = [[1]; [2]; [3]].
 Proof. exact visitor_old_refuted. Qed.
+
+(** "It always terminates; if a callback returns an error Visitor returns an error": the worker pool of
+    Visitor (Conc/VisitPool.v: the caller pushes the shard numbers into a buffered channel as large as
+    the number of shards, closes it and waits; a worker whose callback fails records the error and
+    returns).  For every number of shards, every set of failing shards — including all of them —, every
+    number c >= 1 of workers and every schedule: no deadlock ... *)
+From Coq Require Import List Arith Lia Bool Sorting.Permutation.
+From NV Require Import Base.Sched Conc.VisitPool Conc.VisitPoolStmts Conc.VisitPoolProofs.
+Theorem C10_visit_no_deadlock : stmt_visit_no_deadlock.
+Proof. exact visit_no_deadlock. Qed.
+Print Assumptions C10_visit_no_deadlock.
+
+(** ... every enabled step decreases a measure that starts at 3n + 4c + 5 ... *)
+Theorem C10_visit_terminates : stmt_visit_measure.
+Proof. exact visit_measure. Qed.
+Print Assumptions C10_visit_terminates.
+
+(** ... and at the end no shard was visited twice, the recorded failures are exactly the failing visited
+    shards, without failures every shard was visited exactly once, and if some shard fails an error is
+    recorded *)
+Theorem C10_visit_complete : stmt_visit_complete.
+Proof. exact visit_complete. Qed.
+Print Assumptions C10_visit_complete.
+
+(** regression witness (seeded change S30): a channel of capacity c instead of the number of shards,
+    two failing workers, six shards: the caller is blocked for ever *)
+Theorem C10_small_channel_stuck : stmt_visit_small_channel_stuck.
+Proof. exact visit_small_channel_stuck. Qed.
+Print Assumptions C10_small_channel_stuck.
